@@ -1,6 +1,7 @@
 package main
 
 import (
+	"regexp"
 	"bytes"
 	"context"
 	"fmt"
@@ -14,6 +15,9 @@ import (
 )
 
 // subterms returns the distinct applications "(fn ARG)" found in text, as ARG strings.
+// boundVarRe: names of quantified variables; a term that mentions one is not ground and gets no lemma instance
+var boundVarRe = regexp.MustCompile(`bv![a-z]|\b(sj|aj|st|sb|ri|fi)_[0-9]+|\bq_[A-Za-z0-9]+_[0-9]+`)
+
 func subterms(text, fn string) []string {
 	seen := map[string]bool{}
 	var out []string
@@ -46,7 +50,7 @@ func subterms(text, fn string) []string {
 			}
 		}
 		arg := text[start:k]
-		if !seen[arg] && !strings.Contains(arg, "q_") {
+		if !seen[arg] && !strings.Contains(arg, "q_") && !boundVarRe.MatchString(arg) {
 			seen[arg] = true
 			out = append(out, arg)
 		}
@@ -92,7 +96,7 @@ func subterms2(text, fn string) [][2]string {
 		k2 := sexp(k + 1)
 		b := text[k+1 : k2]
 		key := a + " " + b
-		if !seen[key] && !strings.Contains(key, "q_") {
+		if !seen[key] && !strings.Contains(key, "q_") && !boundVarRe.MatchString(key) {
 			seen[key] = true
 			out = append(out, [2]string{a, b})
 		}
